@@ -341,6 +341,9 @@ func (fi *FnInfo) liveAt(block, ip int) []int {
 }
 
 func (e *Engine) posOf(instr ssa.Instruction) string {
+	if instr == nil {
+		return "?"
+	}
 	p := instr.Pos()
 	if !p.IsValid() {
 		// search nearby
